@@ -91,7 +91,7 @@ func wide(n int) []model.Doc {
 	for i := 0; i < n; i++ {
 		d0 = append(d0, fld(i, 0))
 	}
-	d1 := model.Doc{gen.IDField("w", 1), fld(23, 1), fld(7, 1)}            // descending field ids
+	d1 := model.Doc{gen.IDField("w", 1), fld(23, 1), fld(7, 1)}             // descending field ids
 	d2 := model.Doc{gen.IDField("w", 2), fld(31, 2), fld(2, 2), fld(16, 2)} // mixed order
 	d3 := model.Doc{gen.IDField("w", 3), fld(5, 3), fld(5, 3), fld(38, 3)}  // a repeated field
 	return []model.Doc{d0, d1, d2, d3}
